@@ -791,11 +791,33 @@ func (x *Exec) next(fr *Frame, in *ssa.Next, st *State) Value {
 	return Tuple{okv, k, val}
 }
 
+// allocSize: allocation policy for decoders (C18): a size that is not a
+// constant must be at most maxPrealloc+64 or at most the number of input bytes
+// known to be in hand at that point (the length of a []byte input, or a
+// value returned by Len() of the reader being decoded).
 func (x *Exec) allocSize(st *State, in ssa.Instruction, n *Term, elemSize int) {
-	// hook for allocation-bound obligations (C18); filled by the alloc policy
-	if x.eng != nil && x.eng.allocPolicy != nil {
-		x.eng.allocPolicy(x, st, in, n, elemSize)
+	if !x.allocChecked || x.specDepth > 0 {
+		return
 	}
+	if _, isConst := n.bvConst(); isConst {
+		return
+	}
+	ts := x.w.ts
+	alts := []*Term{x.w.bvsle(n, ts.BV((1<<20)+64, 64))}
+	for _, l := range x.availLens {
+		alts = append(alts, x.w.bvsle(n, x.bvOp("bvadd", l, ts.BV(64, 64))))
+	}
+	var detail string
+	switch t := in.(type) {
+	case *ssa.MakeSlice:
+		detail = describe(t.Len)
+		if c, ok := t.Cap.(*ssa.Const); !ok || c.Value == nil {
+			detail = describe(t.Cap)
+		}
+	case *ssa.MakeMap:
+		detail = describe(t.Reserve)
+	}
+	x.safety(st, "alloc", in, detail, ts.Or(alts...))
 }
 
 func (x *Exec) makeSlice(fr *Frame, in *ssa.MakeSlice, st *State) Value {
